@@ -364,6 +364,107 @@ fn decode(path: &str, front: &str) {
     }
 }
 
+
+/// C06 on the path-based constructors: `open(path)` promises a seekable reader. The whole stream is
+/// decoded once; then, through a reader obtained from `open`, a fixed list of targets is sought and the
+/// rest of the stream after each must equal the tail of the full decode; a target beyond the end must fail.
+fn seekcheck(path: &str, front: &str) {
+    use flac_codec::metadata::Metadata;
+    use std::io::{Seek, SeekFrom};
+    let r: Result<usize, String> = (|| {
+        // the full decode, interleaved samples
+        let mut full: Vec<i32> = Vec::new();
+        let (ch, w) = {
+            let mut r = FlacSampleReader::open(path).map_err(|e| format!("open {e:?}"))?;
+            r.read_to_end(&mut full).map_err(|e| format!("full decode {e:?}"))?;
+            (r.channel_count() as usize, r.bits_per_sample().div_ceil(8) as usize)
+        };
+        let total = (full.len() / ch) as u64;
+        let targets = [total / 2, 0, total.saturating_sub(1), 1.min(total), total / 3, total, total / 2 + 1, total * 2 / 3];
+        let mut done = 0;
+        match front {
+            "sample" => {
+                let mut r = FlacSampleReader::open(path).map_err(|e| format!("open {e:?}"))?;
+                for &t in &targets {
+                    if t > total {
+                        continue;
+                    }
+                    r.seek(t).map_err(|e| format!("seek({t}) of {total} failed: {e:?}"))?;
+                    let mut out = Vec::new();
+                    r.read_to_end(&mut out).map_err(|e| format!("read after seek({t}) {e:?}"))?;
+                    if out[..] != full[t as usize * ch..] {
+                        return Err(format!("seek({t}) of {total}: {} samples follow, not the tail of the stream", out.len()));
+                    }
+                    done += 1;
+                }
+                if r.seek(total + 1).is_ok() {
+                    return Err(format!("seek({}) beyond the end of {total} returned Ok", total + 1));
+                }
+            }
+            "byte" => {
+                let mut r = FlacByteReader::open(path, flac_codec::byteorder::LittleEndian).map_err(|e| format!("open {e:?}"))?;
+                let fullb: Vec<u8> = full.iter().flat_map(|s| s.to_le_bytes()[..w].to_vec()).collect();
+                let unit = (ch * w) as u64;
+                for &t in &targets {
+                    if t > total {
+                        continue;
+                    }
+                    // a byte position inside a PCM frame now and then
+                    let pos = (t * unit + if t < total { t % unit } else { 0 }).min(fullb.len() as u64);
+                    let got = r.seek(SeekFrom::Start(pos)).map_err(|e| format!("seek(Start({pos})) of {} failed: {e:?}", fullb.len()))?;
+                    if got != pos {
+                        return Err(format!("seek(Start({pos})) returned {got}"));
+                    }
+                    let mut out = Vec::new();
+                    r.read_to_end(&mut out).map_err(|e| format!("read after seek({pos}) {e:?}"))?;
+                    if out[..] != fullb[pos as usize..] {
+                        return Err(format!("seek(Start({pos})) of {}: {} bytes follow, not the tail of the stream", fullb.len(), out.len()));
+                    }
+                    done += 1;
+                }
+                if r.seek(SeekFrom::Start(fullb.len() as u64 + unit)).is_ok() {
+                    return Err("seek beyond the end returned Ok".to_string());
+                }
+            }
+            _ => {
+                let mut r = FlacChannelReader::open(path).map_err(|e| format!("open {e:?}"))?;
+                for &t in &targets {
+                    if t > total {
+                        continue;
+                    }
+                    r.seek(t).map_err(|e| format!("seek({t}) of {total} failed: {e:?}"))?;
+                    let mut out: Vec<i32> = Vec::new();
+                    loop {
+                        let b = r.fill_buf().map_err(|e| format!("read after seek({t}) {e:?}"))?;
+                        let n = b[0].len();
+                        if n == 0 {
+                            break;
+                        }
+                        for i in 0..n {
+                            for c in &b {
+                                out.push(c[i]);
+                            }
+                        }
+                        r.consume(n);
+                    }
+                    if out[..] != full[t as usize * ch..] {
+                        return Err(format!("seek({t}) of {total}: {} samples follow, not the tail of the stream", out.len()));
+                    }
+                    done += 1;
+                }
+                if r.seek(total + 1).is_ok() {
+                    return Err(format!("seek({}) beyond the end of {total} returned Ok", total + 1));
+                }
+            }
+        }
+        Ok(done)
+    })();
+    match r {
+        Ok(n) => println!("RESULT ok seeks={n}"),
+        Err(e) => println!("RESULT err {e}"),
+    }
+}
+
 fn main() {
     let a: Vec<String> = std::env::args().collect();
     let cmd = a.get(1).map(|s| s.as_str()).unwrap_or("");
@@ -374,6 +475,7 @@ fn main() {
         "mkfile" => mkfile(&a[2], &a[3], a[4].parse().unwrap()),
         "update" => update(&a[2], &a[3]),
         "decode" => decode(&a[2], &a[3]),
+        "seekcheck" => seekcheck(&a[2], &a[3]),
         "verify" => match flac_codec::decode::verify(&a[2]) {
             Ok(v) => println!("RESULT ok {v:?}"),
             Err(e) => println!("RESULT err {e:?}"),
